@@ -45,6 +45,11 @@ const REQUEST_S: u32 = 1;
 const PROXY_CLOSE_WAIT: Duration = Duration::from_millis(FRONT_S as u64 * 1000 + 1500);
 /// quiescence deadline after the storm: largest timeout in force + 4 s
 const QUIESCE: Duration = Duration::from_secs(FRONT_S as u64 + 4);
+/// how long the clients that went idle keep their sockets open and silent, at most, while the worker has
+/// to get back to its baseline by its own timeouts. Observed on the unchanged tree: an idle HTTP/2 (TLS)
+/// connection is shut down in stages, one front timeout apart (flush, close_notify, teardown); the sockets
+/// are handed over one front timeout (+ 0.6 s) after they went idle.
+const HELD_WAIT: Duration = Duration::from_secs(2 * FRONT_S as u64 + 3);
 const POLL: Duration = Duration::from_millis(200);
 /// estimated wall time of one storm (sum of the interactions' estimates / concurrency) stays below this
 const STORM_BUDGET_MS: u64 = 13_000;
@@ -182,7 +187,7 @@ impl Interaction {
             Interaction::TlsAbandon { end: End::ProxyTimeout, .. } => to,
             Interaction::HalfHead { wait_ms, .. } => *wait_ms as u64 + 50,
             Interaction::BackendStall { .. } => BACK_S as u64 * 1000 + 300,
-            Interaction::H2Idle { .. } => to + 3000,
+            Interaction::H2Idle { .. } => to,
             Interaction::H2Reset { .. } => 900,
             Interaction::ClientAbort { .. } | Interaction::H2Abort { .. } | Interaction::WsUpgrade { .. } => 300,
             Interaction::BackendRefuses { .. } | Interaction::TcpRefused => 500,
@@ -267,16 +272,25 @@ pub fn strategy() -> impl Strategy<Value = Case> {
 
 // ------------------------------------------------------------------ known findings
 
-/// Interaction shapes that are known findings: (name used in labels and signatures, predicate).
-/// Generated (non-strict) cases replace such an interaction by `neutral()` and count it as excluded;
-/// the committed strict reproducers run them as they are.
-fn known_shape(_i: &Interaction) -> Option<&'static str> {
-    None
+/// How generated (non-strict) cases stay outside a known finding.
+enum Exclusion {
+    /// the interaction is replaced by this one
+    Replace(Interaction),
+    /// the interaction runs as generated; the gauges whose name starts with one of these prefixes may end
+    /// up to one above the baseline per such interaction (the worker's baseline is then moved along)
+    Gauges(&'static [&'static str]),
 }
 
-/// nearest shape outside every known finding
-fn neutral(i: &Interaction) -> Interaction {
-    i.clone()
+/// Interaction shapes that are known findings: name used in class labels and signatures, and how
+/// generated cases avoid it. The committed strict reproducers run the shapes as they are, with no
+/// tolerance, and fail with `C16/not-back-to-baseline:<gauge>:<name>`.
+fn known_shape(i: &Interaction) -> Option<(&'static str, Exclusion)> {
+    match i {
+        // a session upgraded to a websocket pipe never gives back its backend connection in the
+        // backend gauges (Pipe::close has no counterpart of Router::connect's increments)
+        Interaction::WsUpgrade { .. } => Some(("ws-upgrade", Exclusion::Gauges(&["backend.connections", "backend.pool.size", "connections_per_backend@c0"]))),
+        _ => None,
+    }
 }
 
 // ------------------------------------------------------------------ gauges
@@ -421,6 +435,7 @@ pub struct StormLab {
     _refusing: Vec<OwnedFd>,
     baseline: Gauges,
     baseline_underflows: u64,
+    baseline_moved: bool,
 }
 
 impl Drop for StormLab {
@@ -476,7 +491,7 @@ impl StormLab {
         h2.worker.add_backend("t1", "t1-0", raddr2);
 
         let env = Env { http: h2.http_addr, https: h2.https_addr, tcp, tcp_refuse, seed: 0 };
-        let mut lab = StormLab { h2, env, _echo: echo, _refusing: refusing, baseline: Gauges::new(), baseline_underflows: 0 };
+        let mut lab = StormLab { h2, env, _echo: echo, _refusing: refusing, baseline: Gauges::new(), baseline_underflows: 0, baseline_moved: false };
         // warm-up: one request per listener (HTTPS: one HTTP/1.1 and one HTTP/2 connection), so that
         // lazily created gauges exist and one-time allocations are done
         lab.h2.reset_plan(BTreeMap::new(), ReadScript::default(), H2Shared::default());
@@ -605,7 +620,16 @@ fn wait_closed<R: Read>(r: &mut R, max: Duration) -> bool {
     }
 }
 
-fn finish(conn: Conn, end: End) -> bool {
+/// sockets of clients that went idle and stay open and silent until the scenario closes them
+type Held = Mutex<Vec<TcpStream>>;
+
+fn hold(held: &Held, s: &TcpStream) {
+    if let Ok(dup) = s.try_clone() {
+        held.lock().unwrap().push(dup);
+    }
+}
+
+fn finish(conn: Conn, end: End, held: &Held) -> bool {
     match end {
         End::Close => true,
         End::Reset => {
@@ -614,7 +638,12 @@ fn finish(conn: Conn, end: End) -> bool {
         }
         End::ProxyTimeout => {
             let mut conn = conn;
-            wait_closed(&mut conn, PROXY_CLOSE_WAIT)
+            let closed = wait_closed(&mut conn, PROXY_CLOSE_WAIT);
+            if !closed {
+                // the proxy has not closed: the socket stays open, the footprint has to come back anyway
+                hold(held, conn.sock());
+            }
+            closed
         }
     }
 }
@@ -874,7 +903,7 @@ fn plans(case: &Case, interactions: &[Interaction]) -> (BTreeMap<usize, BackendA
 /// (neither is a verdict: the oracle is the worker's footprint afterwards), Err = could not even start
 type Seen = Result<bool, String>;
 
-fn run_interaction(env: Env, idx: usize, it: &Interaction) -> Seen {
+fn run_interaction(env: Env, idx: usize, it: &Interaction, held: &Held) -> Seen {
     let host0 = "c0.lab";
     match it {
         Interaction::H1Complete { requests, end, .. } | Interaction::HttpsH1 { requests, end, .. } => {
@@ -896,7 +925,7 @@ fn run_interaction(env: Env, idx: usize, it: &Interaction) -> Seen {
                     }
                 }
             }
-            Ok(finish(c.r, *end) && ok)
+            Ok(finish(c.r, *end, held) && ok)
         }
         Interaction::UnknownHost { front } => Ok(one_request(env, *front, "nobody.lab", None, Duration::from_secs(3))? == Some(404)),
         Interaction::TcpSession { len, closer } => {
@@ -912,7 +941,13 @@ fn run_interaction(env: Env, idx: usize, it: &Interaction) -> Seen {
                 TcpEnd::Client => {}
                 TcpEnd::ClientReset => set_linger0(&s),
                 TcpEnd::Backend => ok &= wait_closed(&mut s, Duration::from_secs(3)),
-                TcpEnd::ProxyTimeout => ok &= wait_closed(&mut s, PROXY_CLOSE_WAIT),
+                TcpEnd::ProxyTimeout => {
+                    let closed = wait_closed(&mut s, PROXY_CLOSE_WAIT);
+                    if !closed {
+                        hold(held, &s);
+                    }
+                    ok &= closed;
+                }
             }
             Ok(ok)
         }
@@ -935,7 +970,11 @@ fn run_interaction(env: Env, idx: usize, it: &Interaction) -> Seen {
                 Listener::Tcp => env.tcp,
             };
             let mut s = h1::connect(addr, Duration::from_secs(2)).map_err(|e| format!("connect: {e}"))?;
-            Ok(wait_closed(&mut s, PROXY_CLOSE_WAIT))
+            let closed = wait_closed(&mut s, PROXY_CLOSE_WAIT);
+            if !closed {
+                hold(held, &s);
+            }
+            Ok(closed)
         }
         Interaction::HalfHead { tls, reset, wait_ms } => {
             let mut conn = h1_connect(env, *tls, host0)?;
@@ -975,8 +1014,9 @@ fn run_interaction(env: Env, idx: usize, it: &Interaction) -> Seen {
             let mut conn = h1_connect(env, *tls, host0)?;
             let ok = conn.write_all(&request_bytes(host0, &format!("/i{idx}"), Some(req_no(idx, 0)), &[])).is_ok();
             let _ = conn.flush();
-            // never read; stay until the proxy's timeout has passed
-            std::thread::sleep(PROXY_CLOSE_WAIT - Duration::from_millis(700));
+            // never read; stay until the proxy's timeout has passed, and longer (held open and silent)
+            std::thread::sleep(Duration::from_millis(FRONT_S as u64 * 1000 + 600));
+            hold(held, conn.sock());
             Ok(ok)
         }
         Interaction::H2Idle { warm_streams } => {
@@ -986,11 +1026,15 @@ fn run_interaction(env: Env, idx: usize, it: &Interaction) -> Seen {
                 h2_get(&mut c, *sid, host0, &format!("/i{idx}/{k}"), Some(req_no(idx, k)))?;
             }
             let warm = h2_until(&mut c, Instant::now() + Duration::from_secs(4), |c| ids.iter().all(|s| h2_stream_over(c, *s)));
-            // no open stream: wait for the proxy's timeout (GOAWAY and / or the connection closed)
-            let fired = h2_until(&mut c, Instant::now() + PROXY_CLOSE_WAIT, |c| c.goaway.is_some() || c.eof);
-            // then the socket just stays open and silent
-            std::thread::sleep(Duration::from_secs(3));
-            Ok(warm && fired)
+            // no open stream: the proxy's timeout passes; the client stays silent and keeps its socket open
+            // (handed to the scenario, which closes it once the worker is back to its baseline, or at its deadline)
+            let t0 = Instant::now();
+            let fired = h2_until(&mut c, Instant::now() + Duration::from_millis(FRONT_S as u64 * 1000 + 600), |c| c.goaway.is_some() || c.eof);
+            if std::env::var("VP_C16_DUMP").is_ok() {
+                eprintln!("h2 idle #{idx}: warm {warm}, close seen {fired} after {:?}, goaway {:?}, eof {}, frames {:?}", t0.elapsed(), c.goaway, c.eof, &c.log[c.log.len().saturating_sub(6)..]);
+            }
+            hold(held, &c.s.sock);
+            Ok(warm)
         }
         Interaction::TlsAbandon { stage, end } => {
             let mut s = h1::connect(env.https, Duration::from_secs(2)).map_err(|e| format!("connect: {e}"))?;
@@ -1006,7 +1050,7 @@ fn run_interaction(env: Env, idx: usize, it: &Interaction) -> Seen {
                     std::thread::sleep(Duration::from_millis(30));
                 }
             }
-            Ok(finish(Conn::Plain(s), *end) && ok)
+            Ok(finish(Conn::Plain(s), *end, held) && ok)
         }
         Interaction::TcpRefused => {
             let mut s = h1::connect(env.tcp_refuse, Duration::from_secs(2)).map_err(|e| format!("connect to the TCP listener: {e}"))?;
@@ -1069,29 +1113,92 @@ fn h2_mid_response(env: Env, idx: usize, what: Mid) -> Seen {
 
 // ------------------------------------------------------------------ scenario
 
+enum Settled {
+    /// every gauge is at its baseline (known-finding gauges: within their tolerance and not moving)
+    Back,
+    /// gauges still off their baseline at the deadline: (name, baseline, now)
+    Off(Vec<(String, u64, u64)>),
+    /// only tolerated gauges are off, and they were still moving at the deadline
+    Unsettled,
+}
+
+/// Poll the worker's gauges every 200 ms until they are back at the baseline, for `max` at most.
+/// `tolerance(name)`: how far above its baseline a gauge may stay (known findings); with `adopt` the
+/// baseline of such a gauge is moved to where it stayed.
+fn settle(lab: &mut StormLab, max: Duration, tolerance: &dyn Fn(&str) -> u64, adopt: bool, storm: &str) -> Result<Settled, Failure> {
+    let deadline = Instant::now() + max;
+    let mut previous: Option<Gauges> = None;
+    loop {
+        if !lab.h2.worker.alive() {
+            return Err(Failure::new("C16/worker-died", format!("the worker thread died during or after the storm ({:?}); storm: {storm}", lab.h2.worker.join())));
+        }
+        let now = match query_gauges(&mut lab.h2.worker) {
+            Ok(g) => g,
+            Err(e) => return Err(Failure::new("C16/metrics-unanswered", format!("the worker does not answer QueryMetrics after the storm: {e}; storm: {storm}"))),
+        };
+        let (within, off): (Vec<_>, Vec<_>) = drift(&lab.baseline, &now).into_iter().partition(|(n, b, v)| v > b && v - b <= tolerance(n));
+        if off.is_empty() {
+            if within.is_empty() {
+                return Ok(Settled::Back);
+            }
+            // tolerated drift is accepted once nothing moves any more (every other gauge, client
+            // connections included, is at its baseline: no session is left to release anything)
+            if previous.as_ref() == Some(&now) {
+                if adopt {
+                    for (n, _, v) in within {
+                        lab.baseline.insert(n, v);
+                    }
+                    lab.baseline_moved = true;
+                }
+                return Ok(Settled::Back);
+            }
+        }
+        if Instant::now() >= deadline {
+            return Ok(if off.is_empty() { Settled::Unsettled } else { Settled::Off(off) });
+        }
+        previous = Some(now);
+        std::thread::sleep(POLL);
+    }
+}
+
 pub fn scenario(lab: &mut StormLab, case: &Case) -> CheckResult {
     let mut rep = CaseReport::default();
     if !lab.h2.worker.alive() {
         return Err(Failure::new("C16/worker-died", format!("the worker thread is gone: {:?}", lab.h2.worker.join())));
     }
-    // known-finding shapes are replaced unless this is a strict reproducer
+    // known-finding shapes are kept out unless this is a strict reproducer
     let mut excluded: BTreeSet<&'static str> = BTreeSet::new();
+    // gauge-name prefix -> how far above the baseline it may end
+    let mut tolerated: BTreeMap<&'static str, u64> = BTreeMap::new();
+    let mut strict_shape: Option<&'static str> = None;
     let interactions: Vec<Interaction> = case
         .interactions
         .iter()
         .map(|i| match known_shape(i) {
-            Some(name) if !case.strict => {
+            Some((name, how)) if !case.strict => {
                 excluded.insert(name);
                 rep.excluded_known += 1;
-                neutral(i)
+                match how {
+                    Exclusion::Replace(other) => other,
+                    Exclusion::Gauges(prefixes) => {
+                        for p in prefixes {
+                            *tolerated.entry(p).or_insert(0) += 1;
+                        }
+                        i.clone()
+                    }
+                }
             }
-            _ => i.clone(),
+            Some((name, _)) => {
+                strict_shape.get_or_insert(name);
+                i.clone()
+            }
+            None => i.clone(),
         })
         .collect();
     for name in &excluded {
         rep.class(format!("known_excluded:{name}"));
     }
-    let strict_shape: Option<&'static str> = if case.strict { interactions.iter().find_map(known_shape) } else { None };
+    let tolerance = |gauge: &str| -> u64 { tolerated.iter().filter(|(p, _)| gauge.starts_with(**p)).map(|(_, n)| *n).max().unwrap_or(0) };
 
     let (h1_actions, h2s) = plans(case, &interactions);
     lab.h2.reset_plan(h1_actions, ReadScript::default(), h2s);
@@ -1100,6 +1207,7 @@ pub fn scenario(lab: &mut StormLab, case: &Case) -> CheckResult {
 
     // ---- the storm
     let next = AtomicUsize::new(0);
+    let held: Held = Mutex::new(vec![]);
     let seen: Mutex<Vec<Option<Seen>>> = Mutex::new(vec![None; interactions.len()]);
     let workers = (case.concurrency.clamp(1, 8) as usize).min(interactions.len().max(1));
     std::thread::scope(|sc| {
@@ -1110,13 +1218,13 @@ pub fn scenario(lab: &mut StormLab, case: &Case) -> CheckResult {
                     if idx >= interactions.len() {
                         break;
                     }
-                    let r = run_interaction(env, idx, &interactions[idx]);
+                    let r = run_interaction(env, idx, &interactions[idx], &held);
                     seen.lock().unwrap()[idx] = Some(r);
                 }
             });
         }
     });
-    // every harness client socket is closed now; stalled mock backends let go too
+    // every harness client socket is closed now, except those of clients that went idle; stalled mock backends let go
     lab.h2.h1_shared.lock().unwrap().stop_stalls = true;
     let seen: Vec<Seen> = seen.into_inner().unwrap().into_iter().map(|s| s.unwrap_or(Err("not run".into()))).collect();
     let kinds: Vec<String> = interactions
@@ -1135,23 +1243,46 @@ pub fn scenario(lab: &mut StormLab, case: &Case) -> CheckResult {
         })
         .collect();
     let storm = format!("{} interactions, {} at a time: [{}]", interactions.len(), workers, kinds.join(", "));
+    if std::env::var("VP_C16_DUMP").is_ok() {
+        eprintln!("storm: {storm}; details: {:?}", seen.iter().filter_map(|s| s.as_ref().err()).collect::<Vec<_>>());
+    }
 
-    // ---- quiescence: back to the baseline, exactly
-    let deadline = Instant::now() + QUIESCE;
-    let mut last;
-    loop {
-        if !lab.h2.worker.alive() {
-            return Err(Failure::new("C16/worker-died", format!("the worker thread died during or after the storm ({:?}); storm: {storm}", lab.h2.worker.join())));
+    // ---- phase 1: clients that went idle still hold their sockets, open and silent: the worker's own
+    // timeouts have to bring the footprint back
+    let mut held = held.into_inner().unwrap();
+    let mut moved = false;
+    if !held.is_empty() {
+        rep.class("idle_sockets_held_open");
+        let n = held.len();
+        match settle(lab, HELD_WAIT, &tolerance, false, &storm)? {
+            Settled::Off(last) => {
+                let (name, base, now) = last[0].clone();
+                let all: Vec<String> = last.iter().map(|(n, b, v)| format!("{n}: baseline {b}, now {v}")).collect();
+                let sig = match strict_shape {
+                    Some(shape) => format!("C16/idle-session-not-reclaimed:{name}:{shape}"),
+                    None => format!("C16/idle-session-not-reclaimed:{name}"),
+                };
+                return Err(Failure::new(
+                    sig,
+                    format!(
+                        "{n} client(s) went idle and keep their sockets open and silent; every other socket is closed; {} s later (timeouts: front {FRONT_S} s, back {BACK_S} s, connect {CONNECT_S} s, request {REQUEST_S} s) the worker has not reclaimed them: gauge {name} is at {now}, its value after set-up was {base}; all gauges off their baseline: {}; storm: {storm}",
+                        HELD_WAIT.as_secs(),
+                        all.join("; ")
+                    ),
+                ));
+            }
+            Settled::Back | Settled::Unsettled => {}
         }
-        let now = match query_gauges(&mut lab.h2.worker) {
-            Ok(g) => g,
-            Err(e) => return Err(Failure::new("C16/metrics-unanswered", format!("the worker does not answer QueryMetrics after the storm: {e}; storm: {storm}"))),
-        };
-        last = drift(&lab.baseline, &now);
-        if last.is_empty() {
-            break;
+        held.clear();
+    }
+    // ---- phase 2: every harness socket is closed: back to the baseline, exactly
+    match settle(lab, QUIESCE, &tolerance, true, &storm)? {
+        Settled::Back => {}
+        Settled::Unsettled => {
+            // only tolerated drift, still moving at the deadline: cannot conclude; the next scenario starts from a fresh worker
+            rep.class("lab_dirty");
         }
-        if Instant::now() >= deadline {
+        Settled::Off(last) => {
             let (name, base, now) = last[0].clone();
             let all: Vec<String> = last.iter().map(|(n, b, v)| format!("{n}: baseline {b}, now {v}")).collect();
             let sig = match strict_shape {
@@ -1168,8 +1299,12 @@ pub fn scenario(lab: &mut StormLab, case: &Case) -> CheckResult {
                 ),
             ));
         }
-        std::thread::sleep(POLL);
     }
+    if lab.baseline_moved {
+        lab.baseline_moved = false;
+        moved = true;
+    }
+    rep.class_if(moved, "baseline_moved_by_known_finding");
     let under = underflows();
     if under != lab.baseline_underflows {
         let times = under - lab.baseline_underflows;
@@ -1236,7 +1371,8 @@ pub fn child(args: &Args, total: u64) -> Stats {
         };
         let r = scenario(&mut lab, case);
         // a lab that saw a failure is not reused
-        *labcell.borrow_mut() = if r.is_ok() { Some(lab) } else { None };
+        let keep = matches!(&r, Ok(rep) if !rep.classes.iter().any(|c| c == "lab_dirty"));
+        *labcell.borrow_mut() = if keep { Some(lab) } else { None };
         r
     };
     let check = |case: &Case| -> CheckResult {
